@@ -717,7 +717,8 @@ class World:
                         kw = {}
                         if d.get('h5_chunks') and arr.ndim and arr.shape[0]:
                             # chunked storage layout (what compression / resizable data sets imply): k rows per storage chunk
-                            kw['chunks'] = (max(1, min(int(d['h5_chunks']), arr.shape[0])),) + tuple(arr.shape[1:])
+                            k_rows = int(d['h5_chunks']) if arr.shape[0] < 1000 else 512 * int(d['h5_chunks'])   # (long data sets: larger storage chunks)
+                            kw['chunks'] = (max(1, min(k_rows, arr.shape[0])),) + tuple(arr.shape[1:])
                             if d.get('h5_compress'):
                                 kw['compression'] = 'gzip'
                         hf.create_dataset(name, data=arr, **kw)
